@@ -30,6 +30,20 @@ def sample_files(rnd, tier):
                                     opt={"elems": [(3, None, nonce.to_bytes(4, "little"))]})
             if ref.parse_header(buf).header_digest[0] == 0:
                 out.append(("s-nul%d" % ht, buf)); break
+    # a file in which clearing the terminator bit of the header-length field makes that integer run on through the first
+    # bytes of the stored checksum and end, without overflow, at a value no allocator can satisfy (>= 2^47): the open
+    # path fails there without an I/O or checksum error - it must still be a failure
+    for nonce in range(400000):
+        buf, _ = ref.build_file([b"", b"huge-header-length"], comp_type=0, hash_type=1, chunk_hash_type=1, flags=2,
+                                opt={"elems": [(3, None, nonce.to_bytes(4, "little"))]})
+        h_ = ref.parse_header(buf); o2, n2 = h_.fields["header_length"]
+        mb = bytearray(buf); mb[o2 + n2 - 1] &= 0x7f
+        try:
+            v, e_ = ref.ci_dec(bytes(mb), o2)
+        except ref.CIError:
+            continue
+        if v >= 2**47:
+            out.append(("s-hugelen", buf)); break
     # a detached header of the first file: header + dictionary, identifier switched
     name, buf = out[1]
     h = ref.parse_header(buf)
